@@ -23,6 +23,8 @@ func usage() {
 	os.Exit(2)
 }
 
+var variantTags, variantArch string
+
 func main() {
 	if len(os.Args) < 2 {
 		usage()
@@ -46,6 +48,8 @@ func main() {
 		repo := fs.String("repo", "/repo", "repository to analyse")
 		fs.Var(&overlayFlag, "overlay", "repo-relative-path=replacement-file (repeatable; used by the mutant self-test, never by registered checks)")
 		fs.BoolVar(&noEvidence, "noevidence", false, "do not write the evidence file (self-test runs)")
+		fs.StringVar(&variantTags, "tags", "", "extra build tags (experiments; the thorough tier iterates over its variants itself)")
+		fs.StringVar(&variantArch, "goarch", "", "GOARCH (experiments)")
 		fs.Parse(os.Args[2:])
 		if *tier == "" {
 			*tier = os.Getenv("VERIF_TIER")
